@@ -98,59 +98,7 @@ def run(ctx, ck):
     ck.rule('R-KIND.angle-conversion', 'np.angle() reaching a printed column passes through /pi*180 once')
     ck.rule('R-EXH.counts', 'announced counts equal the number of blocks that follow')
 
-    # ---------------------------------------------------------------- D1
-    kinds = unit_kinds(ctx, 'Excitation')
-    ck.info('excitation_unit_kinds', kinds)
-    if not ({'phase', 'phase_d'} <= set(kinds)):
-        raise AnalysisError('unit kinds of Excitation.phase / phase_d could not be inferred: %s' % kinds)
-    ck.ob('R-KIND.degrees', 'Excitation|unit-constructors', kinds.get('phase') == 'rad' and
-          kinds.get('phase_d') == 'deg', m.func('mininec.Excitation.__init__').loc(),
-          'phase is %s, phase_d is %s' % (kinds.get('phase'), kinds.get('phase_d')))
-    # the labelled sibling (report line "PULSE NO., VOLTAGE MAGNITUDE, PHASE (DEGREES):") fixes the
-    # unit of each of the three values; the BASIC writer answers the same prompt
-    def triple(q):
-        """(func, (row expr, [three written values]), literal text of the function, prompt comment) - the one
-        line with three values, from the symbolic rows of the writer"""
-        from ..symx import SymExec, line_exprs, row_values, unwrap_formatted
-        f = m.func(q)
-        rows_ = []
-        for p_ in SymExec(ctx, f, bind_loops=True, max_paths=500).run():
-            if p_.end == 'raise':
-                continue
-            for e_, st_ in line_exprs(p_):
-                vals_ = row_values(e_)
-                if vals_ is not None and len(vals_) == 3:
-                    rows_.append((e_, [unwrap_formatted(v_) for v_ in vals_], st_))
-        keys_ = {tuple(norm(v_) for v_ in r_[1]) for r_ in rows_}
-        if len(keys_) != 1:
-            raise AnalysisError('%s: expected one 3-value line, found %d' % (q, len(keys_)))
-        # the literal text around the values: what the function spells out plus what the closed row holds (formats
-        # kept as class-level / module-level constants are part of the row expression)
-        label = ' '.join([x.value for x in ast.walk(f.node) if isinstance(x, ast.Constant) and isinstance(x.value, str)] +
-                         [x.value for r_ in rows_ for x in ast.walk(r_[0]) if isinstance(x, ast.Constant) and isinstance(x.value, str)])
-        line = rows_[0][2].lineno if rows_[0][2] is not None else f.node.lineno
-        c = prompt_comment(f.module, line)
-        node = rows_[0][2] if rows_[0][2] is not None else f.node
-        return f, (node, rows_[0][1]), label, c
-    sf, smod, slabel, _ = triple('mininec.Excitation.as_mininec_short')
-    bf, bmod, blabel, bcomment = triple('mininec.Excitation.as_basic_input')
-    n_deg = 1 if re.search(r'DEG', slabel) else 0
-    ck.floor('DEGREES label on the source report line', n_deg, 1)
-    ck.info('basic_input_prompt_comment', bcomment)
-    (smod, svals), (bmod, bvals) = smod, bmod
-    skinds = [expr_unit(a, kinds) for a in svals]
-    bkinds = [expr_unit(a, kinds) for a in bvals]
-    ck.ob('R-KIND.degrees', sf.qual, 'deg' in skinds and 'rad' not in skinds, sf.loc(smod),
-          'label asks for DEGREES; writes %s with kinds %s' % ([norm(a) for a in svals], skinds))
-    ok = bkinds == skinds
-    why = 'BASIC answer %s has the unit kinds %s of the labelled report line' % (
-        [norm(a) for a in bvals], bkinds)
-    if not ok:
-        bad = [norm(a) for a, k, k2 in zip(bvals, bkinds, skinds) if k != k2]
-        why = ('the prompt PULSE NO., VOLTAGE MAGNITUDE, PHASE (DEGREES) is answered with %s (kinds %s) '
-               'but the report line with that label writes %s (kinds %s): %s is in radians'
-               % ([norm(a) for a in bvals], bkinds, [norm(a) for a in svals], skinds, bad))
-    ck.ob('R-KIND.degrees', bf.qual, ok, bf.loc(bmod), why)
+    check_source_units(ctx, ck)
     # angle conversions in report writers: every printed value that is computed from np.angle(...) is
     # (angle) / pi * 180.  Decided on the rows of the symbolic walk (closed expressions: temporaries, tuples
     # of (angle, magnitude) handed between loops, helpers and nested functions are looked through)
@@ -415,3 +363,63 @@ def run(ctx, ck):
           'height and BASIC reads the end as free' % (sorted({k_ for k_, n_ in other}) or 'nothing',
                                                       sorted({'p1', 'p2'} - snapped)))
     ck.undecided += ['true prompt order of the BASIC program', 're-reading the answers as MININEC would']
+
+
+def check_source_units(ctx, ck, with_basic=True):
+    """R-KIND.degrees: the source line of the report labelled PHASE (DEGREES) prints a degree value; the BASIC
+    answer to the same prompt has the same unit kinds (with_basic).  Shared with C19 (the report line only)."""
+    m = ctx.model
+    # ---------------------------------------------------------------- D1
+    kinds = unit_kinds(ctx, 'Excitation')
+    ck.info('excitation_unit_kinds', kinds)
+    if not ({'phase', 'phase_d'} <= set(kinds)):
+        raise AnalysisError('unit kinds of Excitation.phase / phase_d could not be inferred: %s' % kinds)
+    ck.ob('R-KIND.degrees', 'Excitation|unit-constructors', kinds.get('phase') == 'rad' and
+          kinds.get('phase_d') == 'deg', m.func('mininec.Excitation.__init__').loc(),
+          'phase is %s, phase_d is %s' % (kinds.get('phase'), kinds.get('phase_d')))
+    # the labelled sibling (report line "PULSE NO., VOLTAGE MAGNITUDE, PHASE (DEGREES):") fixes the
+    # unit of each of the three values; the BASIC writer answers the same prompt
+    def triple(q):
+        """(func, (row expr, [three written values]), literal text of the function, prompt comment) - the one
+        line with three values, from the symbolic rows of the writer"""
+        from ..symx import SymExec, line_exprs, row_values, unwrap_formatted
+        f = m.func(q)
+        rows_ = []
+        for p_ in SymExec(ctx, f, bind_loops=True, max_paths=500, props=True, depth=3).run():     # (properties of the source looked through)
+            if p_.end == 'raise':
+                continue
+            for e_, st_ in line_exprs(p_):
+                vals_ = row_values(e_)
+                if vals_ is not None and len(vals_) == 3:
+                    rows_.append((e_, [unwrap_formatted(v_) for v_ in vals_], st_))
+        keys_ = {tuple(norm(v_) for v_ in r_[1]) for r_ in rows_}
+        if len(keys_) != 1:
+            raise AnalysisError('%s: expected one 3-value line, found %d' % (q, len(keys_)))
+        # the literal text around the values: what the function spells out plus what the closed row holds (formats
+        # kept as class-level / module-level constants are part of the row expression)
+        label = ' '.join([x.value for x in ast.walk(f.node) if isinstance(x, ast.Constant) and isinstance(x.value, str)] +
+                         [x.value for r_ in rows_ for x in ast.walk(r_[0]) if isinstance(x, ast.Constant) and isinstance(x.value, str)])
+        line = rows_[0][2].lineno if rows_[0][2] is not None else f.node.lineno
+        c = prompt_comment(f.module, line)
+        node = rows_[0][2] if rows_[0][2] is not None else f.node
+        return f, (node, rows_[0][1]), label, c
+    sf, smod, slabel, _ = triple('mininec.Excitation.as_mininec_short')
+    bf, bmod, blabel, bcomment = triple('mininec.Excitation.as_basic_input')
+    n_deg = 1 if re.search(r'DEG', slabel) else 0
+    ck.floor('DEGREES label on the source report line', n_deg, 1)
+    ck.info('basic_input_prompt_comment', bcomment)
+    (smod, svals), (bmod, bvals) = smod, bmod
+    skinds = [expr_unit(a, kinds) for a in svals]
+    bkinds = [expr_unit(a, kinds) for a in bvals]
+    ck.ob('R-KIND.degrees', sf.qual, 'deg' in skinds and 'rad' not in skinds, sf.loc(smod),
+          'label asks for DEGREES; writes %s with kinds %s' % ([norm(a) for a in svals], skinds))
+    ok = bkinds == skinds
+    why = 'BASIC answer %s has the unit kinds %s of the labelled report line' % (
+        [norm(a) for a in bvals], bkinds)
+    if not ok:
+        bad = [norm(a) for a, k, k2 in zip(bvals, bkinds, skinds) if k != k2]
+        why = ('the prompt PULSE NO., VOLTAGE MAGNITUDE, PHASE (DEGREES) is answered with %s (kinds %s) '
+               'but the report line with that label writes %s (kinds %s): %s is in radians'
+               % ([norm(a) for a in bvals], bkinds, [norm(a) for a in svals], skinds, bad))
+    if with_basic:
+        ck.ob('R-KIND.degrees', bf.qual, ok, bf.loc(bmod), why)
